@@ -216,6 +216,7 @@ structure Frame where
   snap : List Entry            -- the snapshot taken at 292 (never changes)
   rest : List Entry            -- the part of it the `for` loop has not reached yet
   cur : Option (Entry × List (Action × Bool) × Ret)   -- the handler now running: its entry, remaining actions, return
+  deriving DecidableEq
 
 structure M where
   src : Src
